@@ -1,0 +1,68 @@
+//go:build verif
+
+package signaller
+
+import "time"
+
+// Verification hook (build tag `verif` only, add-only): one iteration of the signaller loop with the clock
+// injected, so that the closed loop daemon <-> chain can be driven in virtual time.
+//
+// VerifStep(now) is the body of the `for` loop of Start() without the sleep, i.e.
+//
+//	QueryValidValidator -> updateInternalVariables -> execute()
+//
+// where execute() is repeated line by line with `now` as a parameter instead of time.Now(). Everything that
+// decides (getNonPendingSignalIDs, filterAndPrepareSignalPrices -> isPriceValid / shouldUpdatePrice /
+// isNonUrgentUnavailablePrices, submitPrices) is the production code; nothing below execute() reads the wall
+// clock (filterAndPrepareSignalPrices hands currentTime down to every predicate).
+
+// Outcome of one VerifStep (for statistics only).
+const (
+	VerifStepQueryError   = "valid_query_error" // QueryValidValidator failed          (Start: continue)
+	VerifStepNotValid     = "not_valid"         // validator not required to feed      (Start: continue)
+	VerifStepUpdateFailed = "update_failed"     // updateInternalVariables failed      (Start: continue)
+	VerifStepNoSignals    = "no_signals"        // execute: no non-pending signal ids
+	VerifStepBothanError  = "bothan_error"      // execute: GetPrices failed
+	VerifStepNothing      = "nothing"           // execute: no price passed the filter
+	VerifStepSubmitted    = "submitted"         // execute: submitPrices called (one value sent on submitCh)
+)
+
+func (s *Signaller) VerifStep(now time.Time) string {
+	// ---- Start() loop body (without time.Sleep(s.interval)) ----
+	resp, err := s.feedQuerier.QueryValidValidator(s.valAddress)
+	if err != nil {
+		return VerifStepQueryError
+	}
+
+	if !resp.Valid {
+		return VerifStepNotValid
+	}
+
+	if !s.updateInternalVariables() {
+		return VerifStepUpdateFailed
+	}
+
+	// ---- execute() with `now := time.Now()` replaced by the parameter ----
+	nonPendingSignalIDs := s.getNonPendingSignalIDs()
+	if len(nonPendingSignalIDs) == 0 {
+		return VerifStepNoSignals
+	}
+
+	res, err := s.bothanClient.GetPrices(nonPendingSignalIDs)
+	if err != nil {
+		return VerifStepBothanError
+	}
+
+	prices, uuid := res.Prices, res.Uuid
+
+	signalPrices := s.filterAndPrepareSignalPrices(prices, nonPendingSignalIDs, now)
+	if len(signalPrices) == 0 {
+		return VerifStepNothing
+	}
+
+	s.submitPrices(signalPrices, uuid)
+	return VerifStepSubmitted
+}
+
+// VerifInterval returns the polling period the signaller was constructed with.
+func (s *Signaller) VerifInterval() time.Duration { return s.interval }
